@@ -476,4 +476,8 @@ def run(ctx):
     # values win, the whole vector is scanned (same rule instance as C18/auxv)
     from rules import c18 as _c18a
     _c18a.rule_auxv(ctx, R="C08/auxv")
+    # shared infrastructure this property leans on (rules/families.py): each member is the same rule instance as in its home property
+    from rules import families as _fam
+    _fam.reader(ctx, "C08", module=True)
+    _fam.mapping_list(ctx, "C08")
 
